@@ -30,6 +30,18 @@ def main():
         tier = "quick"
     seed = int(os.environ.get("VERIF_SEED", "20260926"))
     ctx = common.Ctx(pid, tier, seed, replay)
+    ctx.requested_tier = tier
+    # source anchors: a changed module in the import closure of the property's anchored files -> thorough generators
+    try:
+        import anchors
+        changed = anchors.changed_for(common.REPO, anchors.property_files(pid))
+    except Exception as e:
+        changed = ["anchors unavailable: %s" % type(e).__name__]
+    ctx.changed_sources = changed
+    if changed and tier == "quick" and replay is None and os.environ.get("VERIF_NO_ESCALATE") != "1":
+        print("note: %s differ(s) from the pinned source anchors (anchors.json): running %s with the thorough generators"
+              % (", ".join(changed), pid))
+        ctx.tier = "thorough"
     mod = importlib.import_module("props." + pid.lower())
     ready = common.prepare(ctx)
     if ready:
